@@ -2,8 +2,12 @@
 
 package corebgp
 
+import "time"
+
 // Verification hooks compile to nothing without -tags verif.
 
 func verifEvent(kind string, args ...any) {}
 
 func verifPoint(name string) {}
+
+func verifTimer(name string, t *time.Timer) {}
